@@ -7,10 +7,12 @@ CONSTANTS
   Excl = TRUE
   WinLock = TRUE
   Fault = "none"
+  StrictBackend = TRUE
+  DrainAfterDecode = TRUE
   ReadPolicy = "any"
   Modes <- ModesAll
   Levels <- LevelsL1
   Bits <- BitsL1
 VIEW StView
-INVARIANTS DictionariesEqual HeadDecodable ReadEqualsWrite InOrder NoInterleave NoDecodeFailure WindowIsSuffix NoWindowWithoutTakeover
+INVARIANTS NoReaderRefused DictionariesEqual HeadDecodable ReadEqualsWrite InOrder NoInterleave NoDecodeFailure WindowIsSuffix NoWindowWithoutTakeover
 CHECK_DEADLOCK FALSE
